@@ -203,6 +203,29 @@ func Init(property string) (*Opts, *Report) {
 	return o, r
 }
 
+// NewSilentReport returns a scratch report sharing the known-findings table of r (used while shrinking).
+func NewSilentReport(r *Report) *Report {
+	return &Report{Property: r.Property, Distribution: map[string]int{}, distinct: map[string]bool{}, known: r.known, start: time.Now()}
+}
+
+// Merge adds the known-finding reproductions and distribution of a scratch report (not its violations).
+func (r *Report) Merge(o *Report) {
+	for _, k := range o.KnownReproduced {
+		found := false
+		for _, x := range r.KnownReproduced {
+			if x.ID == k.ID {
+				found = true
+			}
+		}
+		if !found {
+			r.KnownReproduced = append(r.KnownReproduced, k)
+		}
+	}
+	for k, v := range o.Distribution {
+		r.Distribution[k] += v
+	}
+}
+
 // Case records one explored case; key identifies distinctness, nontrivial follows the driver's stated rule.
 func (r *Report) Case(key string, nontrivial bool) {
 	r.Evaluations++
